@@ -99,7 +99,7 @@ func runReU(a []string) string {
 func runReE(a []string) string {
 	c, l, seed, ht := atoi(a[0]), atoi(a[1]), uint64(atoi(a[2])), uint16(atoi(a[3]))
 	buf, full, old := mkbuf(c, l, seed)
-	e := packet.EncodeEther(buf, ht, net.HardwareAddr(exact(lib.UnHex(a[4]))), net.HardwareAddr(exact(lib.UnHex(a[5]))))
+	e := packet.EncodeEther(buf, ht, net.HardwareAddr(marg(lib.UnHex(a[4]))), net.HardwareAddr(marg(lib.UnHex(a[5]))))
 	return runReuse(reLayer{14,
 		func(cur, pl []byte) []byte { out, _ := packet.Ether(cur).SetPayload(pl); return out },
 		func(cur, pl []byte) ([]byte, error) { return packet.Ether(cur).AppendPayload(pl[:len(pl):len(pl)]) },
